@@ -60,7 +60,8 @@ def run_proc(exe, text, timeout):
         p.kill()
         out, err = p.communicate()
         status = "timeout"
-    return out.splitlines(), status, err[-1500:]
+    keep = [l for l in err.splitlines() if "ERROR" in l or "SUMMARY" in l or re.match(r"\s+#[0-4] ", l)]
+    return out.splitlines(), status, "\n".join(keep[:12]) or err[-800:]
 
 
 def shrink(ops, fails, keep_head=1, budget_s=60.0, max_runs=150):
@@ -330,7 +331,7 @@ def run_ka_map(ck):
     lines = [l for _, ops in hs for l in ops]
     text = "\n".join(lines) + "\n"
     t0 = time.time()
-    out_c, status, err = run_proc(h, text, 120 if ck.quick else 600)
+    out_c, status, err = run_proc(h, text, 15 if ck.quick else 90)
     tnorm = time.time() - t0
     out_m = ck.run_drv(text) if ck.drv_ok else None
     small_timeout = max(3.0, 4 * tnorm)
@@ -355,8 +356,12 @@ def run_ka_map(ck):
         bad = map_ref_check(ops, oc)
         if bad is not None:
             i, why = bad
-            incomplete = len(oc) < n
+            incomplete = i >= len(oc)
             small = shrink(ops[:i + 1], fails_ref)
+            o2, st2, _ = run_proc(h, "\n".join(small) + "\n", small_timeout)
+            b2 = map_ref_check(small, o2)
+            if b2 is not None:
+                why = b2[1]
             ck.violation({"kind": "map-not-a-dictionary" if not incomplete else
                           ("probe-loop-hang" if status == "timeout" else "harness-crash"),
                           "what": "map.c: " + why, "history_kind": kind, "status": status,
@@ -530,7 +535,7 @@ def run_ka_scope(ck):
     ops, kinds = gen_scope_history(ck)
     text = "\n".join(ops) + "\n"
     t0 = time.time()
-    oc, status, err = run_proc(h, text, 120 if ck.quick else 600)
+    oc, status, err = run_proc(h, text, 15 if ck.quick else 90)
     tnorm = time.time() - t0
     small_timeout = max(3.0, 4 * tnorm)
     ck.count(("scope-history", len(ops)))
@@ -545,6 +550,10 @@ def run_ka_scope(ck):
     if bad is not None:
         i, why = bad
         small = shrink(ops[:i + 1], fails_ref, keep_head=0)
+        o2, st2, _ = run_proc(h, "\n".join(small) + "\n", small_timeout)
+        b2 = scope_ref_check(small, o2)
+        if b2 is not None:
+            why = b2[1]
         ck.violation({"kind": "scope-lookup", "what": "scope.c: " + why, "status": status, "ops": small,
                       "ops_len_before_shrinking": i + 1, "stderr": err if status != "ok" else ""})
         return
@@ -581,6 +590,9 @@ class Unit:
         self.fn = 0
         self.stats = collections.Counter()
         self.maxdepth = 0
+        self.kinds = []          # per emitted line: open / close / goto / stmt
+        self.cstk = None         # cons list of the closers pending after each line
+        self.cstks = []
 
     # --- reference
     def push(self):
@@ -600,8 +612,19 @@ class Unit:
         self.v += 1
         return self.v
 
-    def emit(self, s):
+    def emit(self, s, kind="stmt"):
         self.out.append(s)
+        self.kinds.append(kind)
+        self.cstks.append(self.cstk)
+
+    def open_(self, text, closer):
+        self.cstk = (closer, self.cstk)
+        self.emit(text, "open")
+
+    def close_(self):
+        txt = self.cstk[0]
+        self.cstk = self.cstk[1]
+        self.emit(txt, "close")
 
     @property
     def infunc(self):
@@ -715,7 +738,7 @@ class Unit:
         self.fn += 1
         params = rng.sample(self.names, rng.randint(0, 3))
         pv = [(p, self.newv()) for p in params]
-        self.emit("void fn_%d(%s) {" % (self.fn, ", ".join("char (*%s)[%d]" % x for x in pv) or "void"))
+        self.open_("void fn_%d(%s) {" % (self.fn, ", ".join("char (*%s)[%d]" % x for x in pv) or "void"), "}")
         self.push()
         for p, v in pv:
             self.chain[-1][0][p] = ("param", v)
@@ -733,28 +756,28 @@ class Unit:
                     kind = rng.choice(["plain", "plain", "if", "else", "while", "do", "switch", "for"])
                     self.stats["open-" + kind] += 1
                     if kind == "plain":
-                        self.emit("{"); self.push(); closers.append(("}", 1))
+                        self.open_("{", "}"); self.push(); closers.append(1)
                     elif kind == "if":
-                        self.emit("if (1) {"); self.push(); closers.append(("}", 1))
+                        self.open_("if (1) {", "}"); self.push(); closers.append(1)
                     elif kind == "else":
-                        self.emit("if (0) ; else {"); self.push(); closers.append(("}", 1))
+                        self.open_("if (0) ; else {", "}"); self.push(); closers.append(1)
                     elif kind == "while":
-                        self.emit("while (0) {"); self.push(); closers.append(("}", 1))
+                        self.open_("while (0) {", "}"); self.push(); closers.append(1)
                     elif kind == "do":
-                        self.emit("do {"); self.push(); closers.append(("} while (0);", 1))
+                        self.open_("do {", "} while (0);"); self.push(); closers.append(1)
                     elif kind == "switch":
-                        self.emit("switch (0) { default: {"); self.push(); self.push(); closers.append(("} }", 2))
+                        self.open_("switch (0) { default: {", "} }"); self.push(); self.push(); closers.append(2)
                     else:
                         nm = rng.choice(self.names)
                         v = self.newv()
-                        self.emit("for (char %s[%d]; 0; ) {" % (nm, v))
+                        self.open_("for (char %s[%d]; 0; ) {" % (nm, v), "}")
                         self.push()
                         self.chain[-1][0][nm] = ("obj", v)
                         self.push()
-                        closers.append(("}", 2))
+                        closers.append(2)
                 elif closers:
-                    txt, n = closers.pop()
-                    self.emit(txt)
+                    n = closers.pop()
+                    self.close_()
                     for _ in range(n):
                         self.pop()
                     self.stats["close"] += 1
@@ -773,15 +796,15 @@ class Unit:
             elif r < 0.60:
                 nm = rng.choice(self.names)
                 gotos.add(nm)
-                self.emit("if (0) goto %s;" % nm)
+                self.emit("if (0) goto %s;" % nm, "goto")
             elif r < 0.88:
                 nm = rng.choice(self.names)
                 self.probe(nm)
             else:
                 self.probe_tag(rng.choice(self.names))
         while closers:
-            txt, n = closers.pop()
-            self.emit(txt)
+            n = closers.pop()
+            self.close_()
             for _ in range(n):
                 self.pop()
             # on the way out: the outer declarations reappear
@@ -790,7 +813,7 @@ class Unit:
                 self.probe_tag(nm)
         for nm in sorted(gotos - labels):
             self.emit("%s: ;" % nm)
-        self.emit("}")
+        self.close_()
         self.pop()
 
     def text(self):
@@ -833,26 +856,26 @@ def gen_big_unit(ck, names):
     for nm in order:
         u.probe(nm)
         u.probe_tag(nm)
-    u.emit("void big(void) {")
+    u.open_("void big(void) {", "}")
     u.push()
     sub = rng.sample(u.names, min(len(u.names), 400))
     for nm in sub:
         u.declare(nm)
         if rng.random() < 0.5:
             u.declare_tag(nm)
-    u.emit("{")
+    u.open_("{", "}")
     u.push()
     for nm in sub[:150]:
         u.declare(nm)
     for nm in rng.sample(u.names, min(len(u.names), 1500)):
         u.probe(nm)
         u.probe_tag(nm)
-    u.emit("}")
+    u.close_()
     u.pop()
     for nm in sub:
         u.probe(nm)
         u.probe_tag(nm)
-    u.emit("}")
+    u.close_()
     u.pop()
     for nm in sub:
         u.probe(nm)
@@ -883,6 +906,29 @@ def gcc_accepts(path):
     return r.returncode == 0, r.stdout[-600:]
 
 
+def structural_slice(u, line_index, names):
+    """Lines 0..line_index of the unit restricted to block structure and to the lines that mention
+    one of `names`, followed by the closers pending at that point."""
+    pats = [re.compile(r"(?<![A-Za-z0-9_])%s(?![A-Za-z0-9_])" % re.escape(n)) for n in names]
+    keep = []
+    for i in range(line_index + 1):
+        k = u.kinds[i]
+        if k == "goto":
+            continue
+        if k in ("open", "close") or i == line_index or any(p.search(u.out[i]) for p in pats):
+            keep.append(u.out[i])
+    c = u.cstks[line_index]
+    while c:
+        keep.append(c[0])
+        c = c[1]
+    return "\n".join(keep) + "\n"
+
+
+def names_on_line(u, line_index):
+    pool = set(u.names)
+    return [t for t in set(re.findall(r"[A-Za-z_][A-Za-z0-9_]*", u.out[line_index])) if t in pool]
+
+
 def check_unit(ck, cc, u, tag, d):
     src = u.text()
     path = os.path.join(d, tag + ".c")
@@ -893,10 +939,20 @@ def check_unit(ck, cc, u, tag, d):
         ok, gout = gcc_accepts(path)
         if not ok:
             raise common.Broken("checks/c16.py generated an invalid unit (%s): %s" % (tag, gout))
+        small = src
+        m = re.search(r"%s:(\d+):\d+: error" % re.escape(path), err) if rc != "timeout" else None
+        if m and 0 < int(m.group(1)) <= len(u.out):
+            li = int(m.group(1)) - 1
+            sp = os.path.join(d, "slice.c")
+            for cand in (structural_slice(u, li, names_on_line(u, li)), structural_slice(u, li, u.names)):
+                open(sp, "w").write(cand)
+                if cproc(cc, sp)[0] not in (0, "timeout") and gcc_accepts(sp)[0]:
+                    small = cand
+                    break
         ck.violation({"kind": "valid-unit-rejected" if rc != "timeout" else "compiler-hang",
                       "what": "cproc-qbe %s a unit that gcc accepts: a name was resolved to the wrong kind of entity "
                       "or lookup did not terminate" % ("rejected" if rc != "timeout" else "did not finish"),
-                      "stderr": err[-600:], "unit": save_unit(ck, tag, src)})
+                      "stderr": err[-600:], "unit": save_unit(ck, tag, small), "found_in": tag})
         return False
     got = {int(m.group(1)): int(m.group(2)) for m in CHK_RE.finditer(out)}
     for n in range(u.nchk):
@@ -913,9 +969,16 @@ def check_unit(ck, cc, u, tag, d):
                               "unit": slc, "probe": "chk_%d" % n, "expected_value": want, "got_value": g2.get(n),
                               "found_in": tag})
             else:
+                small = src
+                li = next(i for i, l in enumerate(u.out) if ("int chk_%d =" % n) in l)
+                cand = structural_slice(u, li, [info[0]])
+                open(sp, "w").write(cand)
+                rc3, out3, _ = cproc(cc, sp)
+                if rc3 == 0 and dict((int(a), int(b)) for a, b in CHK_RE.findall(out3)).get(n) != want:
+                    small = cand
                 ck.violation({"kind": "wrong-declaration", "what": "name resolved to the wrong declaration (only in the "
                               "large unit: depends on table state / collisions): " + desc,
-                              "unit": save_unit(ck, tag, src), "probe": "chk_%d" % n, "expected_value": want,
+                              "unit": save_unit(ck, tag, small), "probe": "chk_%d" % n, "expected_value": want,
                               "got_value": got.get(n), "declarations_of_this_name_only": slc})
             return False
     return True
@@ -1178,7 +1241,7 @@ def run_kb(ck):
     stats = collections.Counter()
     # 1. systematic shadowing, depth 200, small colliding pool (+ two very long names)
     for i in range(3 if ck.quick else 6):
-        names = name_pool(rng, 36, 6, longnames=(i == 0))
+        names = name_pool(rng, 36, 6, longnames=(i == (2 if ck.quick else 5)))
         u = gen_shadow_unit(ck, names)
         if not check_unit(ck, cc, u, "shadow%d" % i, d):
             return
@@ -1223,11 +1286,15 @@ def run(ck):
     ck.lean_build()
     if not ck.proofs_ok:
         ck.notes.append("Props.C16 does not build; searching for a failing input")
-    run_ka_map(ck)
-    if not ck.violations:
+    parts = os.environ.get("C16_PARTS", "ka-map,ka-scope,kb").split(",")   # debugging aid only
+    if "ka-map" in parts:
+        run_ka_map(ck)
+    if not ck.violations and "ka-scope" in parts:
         run_ka_scope(ck)
-    if not ck.violations:
+    if not ck.violations and "kb" in parts:
         run_kb(ck)
+    if parts != ["ka-map", "ka-scope", "kb"]:
+        ck.notes.append("C16_PARTS=%s: partial run" % ",".join(parts))
     if not ck.proofs_ok and not ck.violations:
         ck.violation({"kind": "proof-broken", "theorem": "CprocVerif.Props.C16 (lake build failed)",
                       "log": ck.build_log[-3000:]}, nofail=True)
